@@ -325,11 +325,25 @@ class ProgramModel:
         for n in tree.body:
             if isinstance(n, ast.Assign) and len(n.targets) == 1 and isinstance(n.targets[0], ast.Name):
                 env[n.targets[0].id] = ev(n.value)
-        for k in ("ALL_EFOOTPRINT_CLASSES", "CANONICAL_COMPUTATION_ORDER"):
+        self.order_name = "CANONICAL_COMPUTATION_ORDER"
+        if "CANONICAL_COMPUTATION_ORDER" not in env:
+            # the constant was renamed / merged: the recomputation order is whatever class list the chain optimiser
+            # ranks objects by
+            used = []
+            try:
+                _, opt = self.find_function("abstract_modeling_classes/modeling_object.py",
+                                            "optimize_mod_objs_computation_chain")
+                used = sorted({n.id for n in ast.walk(opt) if isinstance(n, ast.Name) and n.id in env})
+            except AnalysisError:
+                pass
+            if len(used) != 1:
+                raise AnalysisError(f"{rel}: CANONICAL_COMPUTATION_ORDER vanished")
+            self.order_name = used[0]
+        for k in ("ALL_EFOOTPRINT_CLASSES", self.order_name):
             if k not in env:
                 raise AnalysisError(f"{rel}: {k} vanished")
         self.ALL = env["ALL_EFOOTPRINT_CLASSES"]
-        self.ORDER = env["CANONICAL_COMPUTATION_ORDER"]
+        self.ORDER = env[self.order_name]
         self.class_lists = env
         for c in self.ALL + self.ORDER:
             if c not in self.classes:
@@ -340,8 +354,11 @@ class ProgramModel:
 
     def slot(self, cn):
         s = self.slots(cn)
+        if s and self.order_name != "CANONICAL_COMPUTATION_ORDER":
+            # fallback order list (see _public_lists): objects are ranked by the first class of the list they derive from
+            return s[0]
         if len(s) != 1:
-            raise AnalysisError(f"{cn} is in {len(s)} slots of CANONICAL_COMPUTATION_ORDER")
+            raise AnalysisError(f"{cn} is in {len(s)} slots of {self.order_name}")
         return s[0]
 
     # ------------------------------------------------------------------ annotations and __init__ attributes
